@@ -479,9 +479,14 @@ func c01GenPatch(s Src) c01PatchCase {
 	if s.Prob(8) {
 		c.Res = ""
 	} else {
-		if s.Prob(50) {
+		switch {
+		case s.Prob(15):
+			// contents no constructor produces but the wire format can carry (empty choice
+			// wrappers and references, undeclared enum numbers …): patching may refuse, not crash
+			res = c01HostilePatient()
+		case s.Prob(50):
 			res = fixturePatient()
-		} else {
+		default:
 			res = genAnyResource(s, defaultGen)
 		}
 		c.Res = resToText(res)
@@ -523,7 +528,7 @@ func c01GenPatch(s Src) c01PatchCase {
 			c.Path += "." + pickOne(s, []string{"first()", "last()", "where(true)", "where(false)", "count()", "exists()", "tail()", "extension('http://example.org/a')", "where($this.exists())", "select($this)", "toString()", "children()", "descendants()"})
 		}
 	default:
-		c.Path = pickOne(s, []string{typ, "Patient.name", "Patient.name[0].given", "Patient.name.where(use = 'official')", "Patient.active", "Patient.deceased", "Patient.zzNope", "1", "'x'", "{}", "Patient.name.count()", "%context", "Patient.name.given.first()", "Patient.contained", "Patient.extension('http://example.org/a')", "Patient.extension[0].value", "$this", "Patient.name.select(given)", "Patient.managingOrganization.reference", "Patient.gender", "Patient.telecom.rank", "((", "Patient.name.first().given.last()", "Patient.link.other", "today()", "Patient.name | Patient.name"})
+		c.Path = pickOne(s, []string{typ, "Patient.name", "Patient.name[0].given", "Patient.name.where(use = 'official')", "Patient.active", "Patient.deceased", "Patient.zzNope", "1", "'x'", "{}", "Patient.name.count()", "%context", "Patient.name.given.first()", "Patient.contained", "Patient.extension('http://example.org/a')", "Patient.extension[0].value", "$this", "Patient.name.select(given)", "Patient.managingOrganization.reference", "Patient.gender", "Patient.telecom.rank", "((", "Patient.name.first().given.last()", "Patient.link.other", "today()", "Patient.name | Patient.name", "Patient.telecom[0]", "Patient.telecom.value", "Patient.address[0].line", "Patient.communication", "Patient.name[1].period.start", "Patient.meta.lastUpdated", "Patient.birthDate", "Patient.multipleBirth", "Patient.extension", "Patient.extension.value"})
 	}
 	// a namesake value needs a target whose type has one: aim at such a node (replace/insert/
 	// delete) or at a parent with such a field (add)
